@@ -10,13 +10,16 @@ value expr: {"$r":pid} raw payload | int/str/None | [..] list | {"$set":[..]} | 
 import typing
 from . import faults
 
-LEAFISH = ("leaf", "leaf2", "keyleaf", "int", "str")
+LEAFISH = ("leaf", "leaf2", "keyleaf", "int", "str", "rleaf", "rkey")
+RULE_ORIGIN = {"rleaf": "leaf", "rkey": "keyleaf"}
 
 
 def build_type(t, env=None):
     k = t[0]
     if k in faults.LEAF_TYPES:
         return faults.LEAF_TYPES[k]
+    if k in RULE_ORIGIN:
+        return faults.rule_leaves()[k]
     if k == "int":
         return int
     if k == "str":
@@ -40,6 +43,9 @@ def build_type(t, env=None):
     if k == "xor":
         from utype.parser.rule import LogicalType
         return LogicalType.one_of(build_type(t[1], env), build_type(t[2], env))
+    if k == "and":
+        from utype.parser.rule import LogicalType
+        return LogicalType.all_of(build_type(t[1], env), build_type(t[2], env))
     if k == "dc":
         return env[t[1]]
     raise ValueError(f"bad type expr {t}")
@@ -58,7 +64,7 @@ def is_scalar(t):
         return True
     if k in ("opt",):
         return is_scalar(t[1])
-    if k in ("union", "xor"):
+    if k in ("union", "xor", "and"):
         return is_scalar(t[1]) and is_scalar(t[2])
     return False
 
@@ -94,8 +100,13 @@ def outer_kind(t):
     return t[0]
 
 
-def gen_scalar(rng, allow_union=True):
+def gen_scalar(rng, allow_union=True, rule_leaves=False, all_of=False):
     r = rng.random()
+    if all_of and r < 0.12:
+        # both conditions of an '&' must hold: same payload, same origin, so one fault id decides both
+        return ["and", rng.choice([["leaf"], ["rleaf"]]), ["rleaf"]]
+    if rule_leaves and r < 0.3:
+        return ["rleaf"]
     if r < 0.55 or not allow_union:
         return ["leaf"]
     if r < 0.7:
@@ -105,14 +116,16 @@ def gen_scalar(rng, allow_union=True):
     return ["opt", ["leaf"]]
 
 
-def gen_container(rng, depth):
+def gen_container(rng, depth, rule_leaves=False, all_of=False):
     """A container type of nesting depth `depth` (>=1) over leaf scalars."""
-    inner = gen_scalar(rng) if depth <= 1 else gen_container(rng, depth - 1)
+    inner = gen_scalar(rng, rule_leaves=rule_leaves, all_of=all_of) if depth <= 1 else gen_container(rng, depth - 1, rule_leaves, all_of)
     k = rng.choice(["list", "list", "set", "tup", "dict", "dict", "fset"])
     if k in ("set", "fset") and not is_scalar(inner):
         k = "list"  # set elements must be hashable
     if k == "dict":
-        return ["dict", ["keyleaf"] if rng.random() < 0.7 else ["str"], inner]
+        r = rng.random()
+        key = ["rkey"] if (rule_leaves and r < 0.35) else (["keyleaf"] if r < 0.75 else ["str"])
+        return ["dict", key, inner]
     return [k, inner]
 
 
@@ -128,6 +141,8 @@ class PidPool:
 def gen_value(rng, t, pool, positions, path=()):
     """Generate a well-formed input for t made of Raw payloads; records (path, leaf-type, pid) in positions."""
     k = t[0]
+    if k in RULE_ORIGIN:
+        k = RULE_ORIGIN[k]
     if k in faults.LEAF_TYPES:
         pid = pool.next()
         positions.append((list(path), k, pid))
@@ -140,12 +155,17 @@ def gen_value(rng, t, pool, positions, path=()):
         if rng.random() < 0.15:
             return None
         return gen_value(rng, t[1], pool, positions, path)
+    if k == "and":
+        pid = pool.next()
+        positions.append((list(path), "leaf", pid))
+        return {"$r": pid}
     if k in ("union", "xor"):
         # one payload tried against both branches: same pid, two fault ids
         pid = pool.next()
         for b in (t[1], t[2]):
-            if b[0] in faults.LEAF_TYPES:
-                positions.append((list(path), b[0], pid))
+            bk = RULE_ORIGIN.get(b[0], b[0])
+            if bk in faults.LEAF_TYPES:
+                positions.append((list(path), bk, pid))
         return {"$r": pid}
     if k in ("list", "set", "fset", "tup"):
         n = rng.choice([0, 1, 2, 2, 3, 3, 4])
